@@ -173,7 +173,10 @@ pub fn classify(e: &MuxerError) -> ErrInfo {
         MuxerError::InvalidAdtsDetailed { frame_index, error } => (
             "InvalidAdtsDetailed",
             C::AdtsFraming,
-            format!("idx={} kind={:?} off={}", frame_index, error.kind, error.byte_offset),
+            // the whole returned value counts (expected / found texts, hex dump, suggestions,
+            // related errors): kind and offset in clear, everything else as a hash of the Debug
+            // and Display renderings
+            format!("idx={} kind={:?} off={} full={:016x}", frame_index, error.kind, error.byte_offset, crate::util::fnv(format!("{:?}|{}", e, e).as_bytes())),
             None,
         ),
         MuxerError::InvalidOpusPacket { frame_index } => {
@@ -285,6 +288,15 @@ fn settings_of<W>(mut b: MuxerBuilder<W>, cfg: &Cfg) -> MuxerBuilder<W> {
         b = b.with_metadata(m);
     }
     if (cfg.path & 4) != 0 {
+        if (cfg.path & 8) != 0 {
+            // decoy setter calls first: the last call of each setter wins
+            if cfg.ctime.is_some() {
+                b = b.set_create_time(86_400);
+            }
+            if cfg.lang.is_some() {
+                b = b.set_language("zzz");
+            }
+        }
         if let Some(c) = cfg.ctime {
             b = b.set_create_time(c);
         }
